@@ -440,6 +440,9 @@ func (vc *VC) mergeMem(conds []string, mems []*Mem) *Mem {
 // strings ------------------------------------------------------------------
 
 func (vc *VC) strConst(s string) string {
+	if s == "" {
+		return "0"
+	}
 	if n, ok := vc.strs[s]; ok {
 		return n
 	}
@@ -448,6 +451,7 @@ func (vc *VC) strConst(s string) string {
 	vc.header = append(vc.header, fmt.Sprintf("(declare-const %s Str) ; %q", n, s))
 	vc.header = append(vc.header, fmt.Sprintf("(assert (= (str-len %s) %d))", n, len(s)))
 	vc.header = append(vc.header, fmt.Sprintf("(assert (= (str-id %s) %d))", n, len(vc.strs)))
+	vc.header = append(vc.header, fmt.Sprintf("(assert (not (= %s 0)))", n))
 	return n
 }
 
